@@ -641,6 +641,7 @@ func (ls *LanceroSource) StartRun() error {
 func (ls *LanceroSource) launchLanceroReader() {
 	ls.buffersChan = make(chan BuffersChanType, 100)
 	ls.readPeriod = 50 * time.Millisecond
+	ls.readPeriod = verifReadPeriod(ls.readPeriod)
 	go func() {
 		ticker := time.NewTicker(ls.readPeriod)
 		lastSuccesfulRead := time.Now()
